@@ -282,6 +282,23 @@ class C20(Prop):
                 first = res_prev[res_prev[:, 0] == res_prev[0, 0]]
                 m_tot = float(np.sum(first[:, 3]))
             if t_out_prev is not None:
+                # the bulk outlet temperature of the previous sweep(s) is
+                # the flow-weighted mean over all assemblies and all time
+                # points of the results handed in (recomputed here, not
+                # taken from the optimiser's summary)
+                if res_prev is not None:
+                    t_bulk = float(np.sum(res_prev[:, 4] * res_prev[:, 3])
+                                   / np.sum(res_prev[:, 3]))
+                    log.probe('c20.bulk_outlet_checked')
+                    if abs(float(t_out_prev) - t_bulk) > \
+                            1e-9 * max(abs(t_bulk), 1.0):
+                        log.vio('flow.conservation', label,
+                                f'bulk outlet temperature used for the flow '
+                                f'target {float(t_out_prev)!r} != '
+                                f'flow-weighted mean {t_bulk!r} of the '
+                                f'previous results '
+                                f'({len(set(res_prev[:, 0]))} time points)',
+                                ['conservation', 'bulk_outlet'])
                 m_tot *= (float(t_out_prev) - t_in) / (t_tg - t_in)
             if abs(float(np.sum(m)) - m_tot) > 1e-9 * abs(m_tot):
                 log.vio('flow.conservation', label,
